@@ -38,6 +38,7 @@ import (
 	"github.com/hydraide/hydraide/app/name"
 	"github.com/hydraide/hydraide/app/server/gateway"
 	"github.com/hydraide/hydraide/app/server/telemetry"
+	"github.com/hydraide/hydraide/app/verifhook"
 	hydrapb "github.com/hydraide/hydraide/sdk/go/hydraidego/v3/hydraidepbgo"
 	"github.com/vmihailenco/msgpack/v5"
 	"google.golang.org/grpc/metadata"
@@ -68,6 +69,16 @@ func (h c26Log) WithAttrs([]slog.Attr) slog.Handler { return h }
 func (h c26Log) WithGroup(string) slog.Handler      { return h }
 
 var c26Panics int64
+
+// mode `p`: the engine panics once, at the top of the next SummonSwamp (hook point summon.enter), so the
+// recover path of the handler under test is exercised with a request that is otherwise valid
+var c26InjectPanic int32
+
+func c26Hook(name string, args ...any) {
+	if name == "summon.enter" && atomic.CompareAndSwapInt32(&c26InjectPanic, 1, 0) {
+		panic("verif: injected engine panic")
+	}
+}
 
 // ---- RPC table ---------------------------------------------------------------
 
@@ -230,6 +241,7 @@ func c26CaseOpts(f []string) {
 
 func c26Start() (*c26State, error) {
 	slog.SetDefault(slog.New(c26Log{n: &c26Panics}))
+	verifhook.SetHandler(c26Hook)
 	rig, err := NewRig(3, 2000, 3600, 0)
 	if err != nil {
 		return nil, err
@@ -293,6 +305,28 @@ func c26Close(st *c26State, nm string) (vig bool, closed bool) {
 		return v, true
 	case <-time.After(5 * time.Second):
 		return false, false
+	}
+}
+
+// c26Flush writes the pending treasures of every touched open swamp to disk without closing it.
+func c26Flush(st *c26State, names map[string]bool) {
+	h := st.rig.Zeus.GetHydra()
+	for nm := range names {
+		n := name.Load(nm)
+		if ex, err := h.IsExistSwamp(c26Island, n); err != nil || !ex {
+			continue
+		}
+		done := make(chan struct{})
+		go func() {
+			defer close(done)
+			if sw, err := h.SummonSwamp(context.Background(), c26Island, n); err == nil && sw != nil {
+				sw.WriteTreasuresToFilesystem()
+			}
+		}()
+		select {
+		case <-done:
+		case <-time.After(5 * time.Second):
+		}
 	}
 }
 
@@ -562,13 +596,26 @@ func c26Acked(rpc c26Rpc, req proto.Message, resp reflect.Value) map[string][]st
 
 var c26LastResp reflect.Value
 
+var c26Mode = "w"
+
 func c26Do(st *c26State, rpc c26Rpc, msg proto.Message) string {
 	touched := map[string]bool{}
 	for _, s := range c26Seeded {
 		touched[s] = true
 	}
 	c26Names(msg.ProtoReflect(), touched)
+	if c26Mode == "p" {
+		atomic.StoreInt32(&c26InjectPanic, 1)
+	}
 	class, rec := c26Call(st, rpc, msg)
+	atomic.StoreInt32(&c26InjectPanic, 0)
+	if c26Mode == "f" && class != "hang" {
+		// mode `f`: the swamps stay open, what is waiting for the writer is flushed to disk (as the write-interval
+		// ticker would do), and the same request is sent once more; the reply of the second one is reported
+		c26Flush(st, touched)
+		c2, r2 := c26Call(st, rpc, proto.Clone(msg))
+		class, rec = c2, rec+r2
+	}
 	if class == "hang" {
 		// the handler never returned: it still holds whatever it took; this server is abandoned
 		lock := 0
@@ -757,6 +804,7 @@ func c26Run(in *bufio.Scanner, w *bufio.Writer) {
 				fmt.Fprintln(w, "bad-op", err)
 				continue
 			}
+			c26Mode = f[2]
 			fmt.Fprintln(w, c26Do(st, rpc, msg))
 			if st.poisoned {
 				// cannot be stopped (the stuck handler holds the system lock): leave it behind, start afresh
@@ -1285,6 +1333,24 @@ func c26EntryShape(m protoreflect.Message, mode string) string {
 	if fd := get("KeyValues"); fd != nil {
 		kv = m.Get(fd).List().Len() == 0
 	}
+	// a treasure key that cannot be stored: empty or longer than 65535 bytes (the entry's own Key, or the Key of a
+	// KeyValues / KeySlicePairs / Patches child)
+	kb := false
+	badKey := func(k string) bool { return k == "" || len(k) > 65535 }
+	if fd := get("Key"); fd != nil && fd.Kind() == protoreflect.StringKind && !fd.IsList() {
+		kb = badKey(m.Get(fd).String())
+	}
+	for _, cn := range []string{"KeyValues", "KeySlicePairs", "Patches"} {
+		if fd := get(cn); fd != nil && fd.IsList() && fd.Kind() == protoreflect.MessageKind {
+			l := m.Get(fd).List()
+			for i := 0; i < l.Len(); i++ {
+				cm := l.Get(i).Message()
+				if kf := cm.Descriptor().Fields().ByName("Key"); kf != nil && badKey(cm.Get(kf).String()) {
+					kb = true
+				}
+			}
+		}
+	}
 	iz := false
 	if fd := get("IncrementBy"); fd != nil {
 		v := m.Get(fd)
@@ -1330,8 +1396,8 @@ func c26EntryShape(m protoreflect.Message, mode string) string {
 			li = m.Get(fd).String() == ""
 		}
 	}
-	return fmt.Sprintf("p%d,ne%s,ep%s,x%s,k%s,kv%s,iz%s,oe%s,mn%s,pe%s,cap%s,lk%s,li%s,t%s", len(parts), c26B(nm == ""), c26B(ep), c26B(exist), keys,
-		c26B(kv), c26B(iz), c26B(oe), c26B(mn), c26B(pe), cp, c26B(lk), c26B(li), c26B(!c26GenTel))
+	return fmt.Sprintf("p%d,ne%s,ep%s,x%s,k%s,kv%s,kb%s,iz%s,oe%s,mn%s,pe%s,cap%s,lk%s,li%s,t%s", len(parts), c26B(nm == ""), c26B(ep), c26B(exist), keys,
+		c26B(kv), c26B(kb), c26B(iz), c26B(oe), c26B(mn), c26B(pe), cp, c26B(lk), c26B(li), c26B(!c26GenTel))
 }
 
 func c26Shape(msg proto.Message, mode string) string {
@@ -1386,6 +1452,16 @@ func c26Emit(w *bufio.Writer, rpc c26Rpc, msg proto.Message, mode string, label 
 
 var c26GenTel = false // telemetry collector configured in the case being generated
 
+// handlers whose engine part starts with SummonSwamp in the handler's own goroutine
+func c26Summons(rpc string) bool {
+	switch rpc {
+	case "Heartbeat", "Lock", "Unlock", "RegisterSwamp", "DeRegisterSwamp", "IsSwampExist", "DestroyBulk",
+		"SubscribeToEvents", "SubscribeToInfo", "SubscribeToTelemetry", "GetTelemetryHistory", "GetTelemetryStats", "GetErrorDetails":
+		return false
+	}
+	return true
+}
+
 func c26WritesKeys(rpc string) bool {
 	// plus the two readers that leave an empty swamp behind on the legacy engine (recorded finding)
 	return c26Keyed(rpc) || rpc == "Uint32SliceSize" || rpc == "Uint32SliceIsValueExist"
@@ -1417,6 +1493,12 @@ func c26Gen(rng *rand.Rand, tier string, w *bufio.Writer) {
 			ci++
 			base := c26Base(rpc)
 			c26Emit(w, rpc, base, "w", "base")
+			if c26Summons(rpc.name) {
+				c26Emit(w, rpc, base, "p", "engine-panic") // a panic below the prefix: the handler must recover and unwind
+			}
+			if c26Keyed(rpc.name) {
+				c26Emit(w, rpc, base, "f", "base")
+			}
 			for _, d := range c26Directed(rpc) {
 				c26Emit(w, rpc, d.msg, "w", d.label)
 			}
@@ -1471,6 +1553,10 @@ func c26Gen(rng *rand.Rand, tier string, w *bufio.Writer) {
 				seen[string(b)] = true
 				c26Emit(w, rpc, m.msg, "w", m.label)
 				n++
+				if m.kind == "oversize" && c26Keyed(rpc.name) {
+					c26Emit(w, rpc, m.msg, "f", m.label) // again after a flush, the swamp still open
+					n++
+				}
 				if c26HasKeys(m.msg) && rpc.kind != "bidi" {
 					c26Emit(w, rpc, m.msg, "e", m.label)
 					n++
